@@ -687,22 +687,31 @@ def check_case(spec, ctx=None, flag=True):
 
 def flag_names(spec, opv):
     """a violation in a case with renamed columns: does it depend on the NAMES?  The case is run again with plain names; a signature
-    that is still there is reported as it is, otherwise the role and the special name of the column(s) whose renaming back
-    removes it go into the signature (.../x-name~index/mode=...)"""
-    plain = {a for a, _ in check_case(neutral_spec(spec), None, False)}
-    out, memo = [], {}
+    that is still there is reported as it is.  Otherwise the renamed columns are given their plain names back one after the other
+    (a column stays plain when the violation survives that), and what remains -- the column(s) whose NAME is needed -- decides the
+    signature: <operation>/<role>-name~<special name>/mode=<failure>, the role being the first of x, l, p, where the column is named in"""
+    memo = {}
+    def sigs(keep):           # signatures of the case in which only the columns `keep` still carry their special-looking names
+        k = tuple(sorted(keep))
+        if k not in memo: memo[k] = {a for a, _ in check_case(neutral_spec(spec, set(spec["names"]) - set(keep)), None, False)}
+        return memo[k]
+    out = []
     for i, sig, what in opv:
-        if sig in plain: out.append((i, sig, what)); continue
+        if sig in sigs(()): out.append((i, sig, what)); continue
         used = [r for op in spec["ops"][:i + 1] for r in op_names(spec, op)]
-        cols = sorted({c for _, c, _ in used})
-        culprits = []
-        for c in cols:
-            if c not in memo: memo[c] = {a for a, _ in check_case(neutral_spec(spec, {c}), None, False)}
-            if sig not in memo[c]: culprits.append(c)
-        here = [r for r in op_names(spec, spec["ops"][i]) if r[1] in culprits] or [r for r in used if r[1] in culprits] or used
-        fl = "".join(sorted({f"/{role}-name~{tok}" for role, _, tok in here}))
+        keep = sorted(spec["names"])
+        for c in list(keep):
+            rest = [k for k in keep if k != c]
+            if sig in sigs(rest): keep = rest
+        roles = [r for r in op_names(spec, spec["ops"][i]) if r[1] in keep] or [r for r in used if r[1] in keep]
+        fl = set()
+        for c in keep:
+            rs = [r for r in roles if r[1] == c]
+            if rs: fl.add(min(rs, key=lambda r: ("x", "l", "p", "where").index(r[0])))
+        fl = "".join(f"/{role}-name~{tok}" for role, tok in sorted({(role, tok) for role, _, tok in fl})) or "/column-names"
         head, sep, tail = sig.rpartition("/mode=")
-        out.append((i, head + fl + sep + tail, what + f"  [depends on the column names: {sorted({(r, c) for r, c, _ in here})}; the same case with plain names passes]"))
+        out.append((i, head.split("/")[0] + fl + sep + tail,
+                    what + f"  [{sig}; depends on the NAME of {sorted({(r, c) for r, c, _ in roles})}: the same case with plain column names passes]"))
     return out
 
 def pairing_sig(mode, info, oc):
